@@ -874,6 +874,18 @@ class Engine:
                 import traceback as _tb
                 errors.append('contract out of date (KeyError %s): %s [path %s]'
                               % (ke, _tb.format_exc().strip().splitlines()[-3].strip()[:200], ';'.join(self.path.sig)))
+            except (AttributeError, TypeError, IndexError, ValueError) as he:
+                # a host error at most two calls away from contract code (e.g. E.run_generator(None), r.attrs on an int): the
+                # contract cannot even read what the code returned - stale contract or wrong result type: undecided, not a
+                # checker crash.  Deeper host errors are engine defects and stay crashes (exit 3).
+                import traceback as _tb
+                frames = _tb.extract_tb(he.__traceback__)
+                idx = [i for i, fr in enumerate(frames) if os.sep + 'contracts' + os.sep in fr.filename]
+                if not idx or len(frames) - 1 - idx[-1] > 2:
+                    raise
+                fr = frames[idx[-1]]
+                errors.append('contract out of date (%s: %s): %s [path %s]' % (type(he).__name__, he, (fr.line or '').strip()[:200],
+                                                                             ';'.join(self.path.sig)))
             except PyExc as e:
                 # the code under contract raised where its contract expects a normal return: a failed obligation
                 model = None
@@ -1142,6 +1154,8 @@ class Engine:
     # ------------------------------------------------------------------ calls
     def call(self, f, args, kwargs=None):
         kwargs = kwargs or {}
+        if f is None or isinstance(f, (bool, int, str, bytes, SInt, SBytes, SBool)):
+            self.throw('TypeError', "'%s' object is not callable" % type(f).__name__)
         if isinstance(f, BoundMethod):
             return self.call(f.func, [f.self_obj] + list(args), kwargs)
         if isinstance(f, Builtin):
